@@ -18,10 +18,11 @@ RULE = ('gate rules: n in 1..5, gate size 1..3, random target tuples in any orde
         'permutation x phase) and non-unitary matrices, tag_op_grad on/off; sweeps: random circuits built through the real Circuit / '
         'CircuitTorchWrapper (fixed, trainable, shared, controlled-parametrised and placeholder gates) with integer gate tensors; KL: '
         'random operator sequences, L in {1,2,4}; Sylvester rule: sizes 1..4, repeat 1..3, incl. one zero root; flat bridge: random '
-        'parameter names/shapes. Non-trivial = at least 2 qubits / 2 gates; distinct = distinct op lines.')
+        "parameter names/shapes. Round 7: circuits with kind='custom' gates (FractionalGroverOracle trainable/frozen/shared, GroverOracle) "
+        'on 2 and 4 qubits; stacked-tensor rows of forward/setP; inner_product_grad. Non-trivial = at least 2 qubits / 2 gates; distinct = distinct op lines.')
 TRUSTED = ['Lean 4.33 kernel', 'axioms: propext, Classical.choice, Quot.sound', 'Lean compiler for the driver executable',
            'carriers: GInt/QI are proved to be CommRing/StarRing resp. Field instances (NumqiProofs/BackwardCarrier.lean); the theorems are instantiated at them by elaboration, not re-proved per carrier',
-           'harness/c04.py canonicalisation and the construction of integer gate tensors / ind_gate_to_info copies with integer arrays',
+           'harness/c04.py canonicalisation; integer data enters through public attributes (gate.array / set_args before the wrapper is built) and through the tensor positions of the call that CircuitTorchWrapper.forward itself makes (captured, non-tensor arguments untouched)',
            'Driver/C04.lean evaluates the sweep step by step through flat arrays (same step functions `PGate.apply`/`PGate.back` as the theorem)',
            'modelled, not verified: sim/state.py, sim/_torch_utils.py, qec/_internal.py, _torch_op.py, optimize/_internal.py; torch autograd and the gate '
            'constructors hf0(theta) are not modelled (probed by finite differences)']
@@ -225,6 +226,51 @@ def random_circuit(rng, n, ngate, with_placeholder=True):
     return circ, nph
 
 
+CUSTOM_KEY = 'circuit-grad:custom-gate'
+
+
+def random_custom_circuit(rng, nq, ngate, with_placeholder=True):
+    """a circuit on 2*nq qubits with `kind='custom'` gates registered through `register_custom_gate`: trainable / frozen
+    `numqi.query.FractionalGroverOracle` (all carry the same name), the non-trainable `GroverOracle`, shared oracle objects re-appended,
+    interleaved with fixed / trainable / shared / controlled / placeholder gates"""
+    import numqi
+    n = 2 * nq
+    circ = numqi.sim.Circuit(default_requires_grad=True)
+    circ.register_custom_gate('fgo', numqi.query.FractionalGroverOracle)
+    circ.register_custom_gate('go', numqi.query.GroverOracle)
+    ang = lambda m: tuple(float(x) for x in rng.uniform(0, 2 * np.pi, size=m))
+    circ.ry(n - 1, ang(1))                       # the register size is read off the ordinary gates (custom gates have index ())
+    oracles, shared, nph = [], [], 0
+    kinds = ['xf', 'xf', 'xg', 'xz', 'xshare', 'p1', 'p1', 'fix1', 'fixc', 'pc', 'share', 'ph']
+    for _ in range(ngate):
+        kind = rng.choice(kinds)
+        q = [int(x) for x in rng.permutation(n)]
+        if kind == 'xf':
+            oracles.append(circ.fgo(nq, float(rng.uniform(0, 2))))
+        elif kind == 'xz':
+            circ.fgo(nq, float(rng.uniform(0, 2)), requires_grad=False)
+        elif kind == 'xg':
+            circ.go(nq)
+        elif kind == 'xshare' and oracles:
+            circ.append_gate(oracles[int(rng.integers(len(oracles)))], ())
+        elif kind == 'p1':
+            nm = rng.choice(['rx', 'ry', 'rz', 'u3'])
+            shared.append(getattr(circ, nm)(q[0], ang(3 if nm == 'u3' else 1)))
+        elif kind == 'fix1':
+            circ.single_qubit_gate(numqi.random.rand_haar_unitary(2, seed=int(rng.integers(1 << 30))), q[0])
+        elif kind == 'fixc':
+            circ.cnot(q[0], q[1])
+        elif kind == 'pc':
+            circ.crx(q[0], q[1], ang(1))
+        elif kind == 'share' and shared:
+            circ.append_gate(shared[int(rng.integers(len(shared)))], (q[0],))
+        elif kind == 'ph' and with_placeholder:
+            circ.rz(q[0], circ.P['a'][nph]); nph += 1
+    if not oracles:
+        oracles.append(circ.fgo(nq, float(rng.uniform(0, 2))))
+    return circ, nph
+
+
 def circuit_descs(circ):
     from numqi.sim._internal import _ParameterHolder
     ids = {}
@@ -236,9 +282,170 @@ def circuit_descs(circ):
     return '|'.join(out)
 
 
+def rand_scalar(rng, unitary):
+    """the scalar of a diagonal-phase gate on Gaussian-integer data (unit modulus: one of 1, i, -1, -i)"""
+    if unitary:
+        return np.complex128([1, 1j, -1, -1j][int(rng.integers(4))])
+    while True:
+        z = complex(int(rng.integers(-2, 3)), int(rng.integers(-2, 3)))
+        if z != 0:
+            return np.complex128(z)
+
+
+def stack_ops(ctx, circ, nph, add):
+    """`CircuitTorchWrapper.forward` / `setP` with the gate constructors replaced by the identity on the parameter rows and
+    `_CircuitFunction` replaced by a recorder: every row of every stacked tensor is then the parameter tuple of exactly one gate object
+    (trainable: `t<objId>`, placeholder: `p<position>`), compared with the model's `stackTags` / `placeholderPositions`"""
+    import numqi, torch
+    import numqi.sim._torch_utils as TU
+    from numqi.sim._internal import _ParameterHolder
+    descs = circuit_descs(circ)
+
+    def run():
+        wrapper = numqi.sim.CircuitTorchWrapper(circ)
+        ids, tags = {}, {}
+        for pos, (g, _) in enumerate(circ.gate_index_list):
+            oid = ids.setdefault(id(g), len(ids))
+            if hasattr(g, 'args') and isinstance(g.args, _ParameterHolder):
+                tags[('p', pos)] = None
+            elif getattr(g, 'requires_grad', False):
+                tags.setdefault(tuple(float(x) for x in g.args) + (g.name,), f't{oid}')
+        wrapper.hf0_dict = {k: (lambda *cols: torch.stack(cols, dim=1)) for k in wrapper.hf0_dict}
+        pvals = torch.tensor(np.arange(1, max(nph, 1) + 1) * 1000.0 + 0.5, dtype=torch.float64)
+        phrows = '-'
+        if nph:
+            wrapper.setP(a=pvals)
+            hold = {}
+            for pos, (g, _) in enumerate(circ.gate_index_list):
+                if hasattr(g, 'args') and isinstance(g.args, _ParameterHolder):
+                    hold[tuple(float(x) for x in g.args.resolve().reshape(-1)) + (g.name,)] = f'p{pos}'
+            phrows = '|'.join(f'{nm}=' + ','.join(hold[tuple(float(x) for x in row) + (nm,)][1:] for row in wrapper.hgate_torch_dict[nm])
+                              for nm in sorted(wrapper.hgate_torch_dict))
+            tags.update({k: v for k, v in hold.items()})
+        rec = {}
+        saved = {id(g): (g.args, getattr(g, 'array', None)) for g, _ in circ.gate_index_list if getattr(g, 'kind', '') == 'custom' and hasattr(g, 'set_args')}
+        fn = getattr(TU, '_CircuitFunction', None)
+        if fn is None or not hasattr(fn, 'apply'):
+            raise LookupError('no interceptable autograd Function')
+        q_in = torch.zeros(2 ** circ.num_qubit, dtype=torch.complex128)
+
+        def recorder(*args):
+            # the stacked tensors are the tensor arguments before the state; nothing else of the argument layout is used
+            ts = [a for a in args if isinstance(a, torch.Tensor)]
+            rec['tensors'] = [t for t in ts if t is not q_in]
+            return q_in
+        try:
+            fn.apply = staticmethod(recorder)
+            wrapper(q_in)
+            rec['names'] = tensor_names(wrapper)
+            if len(rec['names']) != len(rec.get('tensors', [None])):
+                raise LookupError('unexpected tensor arguments')
+            # what `forward` handed to every trainable custom gate object through `set_args` (identity constructor: array row = theta row)
+            bound = []
+            for pos, (g, _) in enumerate(circ.gate_index_list):
+                if getattr(g, 'kind', '') == 'custom':
+                    bound.append(tags.get(tuple(float(x) for x in np.asarray(g.array).reshape(-1)) + (g.name,), 'unbound') if (hasattr(g, 'set_args') and g.requires_grad) else '-')
+        finally:
+            try:
+                del fn.apply
+            except Exception:
+                pass
+            for g, _ in circ.gate_index_list:
+                if id(g) in saved:
+                    g.args, g.array = saved[id(g)]
+        stack = '|'.join(f'{nm}=' + ','.join(tags[tuple(float(x) for x in row.reshape(-1)) + (nm,)] for row in t.detach())
+                         for nm, t in zip(rec['names'], rec['tensors']))
+        return stack, phrows, ','.join(bound)
+    cache = {}
+    try:
+        cache['r'] = run()
+    except LookupError as e:
+        ctx.note(f'stack tie skipped ({e}); the public-path probes decide'); ctx.count('stack-capture-unavailable')
+        return
+
+    def get(j):
+        return cache['r'][j]
+    add(f'C04 stack {descs}', lambda: get(0) or '')
+    if nph:
+        add(f'C04 phrows {descs}', lambda: get(1))
+    xpos = [pos for pos, (g, _) in enumerate(circ.gate_index_list) if getattr(g, 'kind', '') == 'custom']
+    if xpos:
+        add(f'C04 xbind {descs} {";".join(map(str, xpos))}', lambda: get(2))
+
+
+def ipg_ops(ctx, rng, add):
+    """`numqi.sim.state.inner_product_grad` on Gaussian-integer data, all four `tag_grad` settings, default `c_grad`"""
+    import numqi
+    from numqi.sim.state import inner_product_grad
+    for rep in range(8 if ctx.quick() else 60):
+        n = int(rng.integers(0, 4))
+        q0 = rg(rng, 2 ** n, 3); q1 = rg(rng, 2 ** n, 3); c = rg(rng, 1, 3)[0]
+        for tag in ((True, False), (False, True), (True, True), (False, False)):
+            def f(q0=q0, q1=q1, c=c, tag=tag):
+                a0, a1 = q0.copy(), q1.copy()
+                r = inner_product_grad(a0, a1, c, tag_grad=tag)
+                check_unmutated(ctx, 'inner_product_grad', dict(n=n), [('q0', a0, q0), ('q1', a1, q1)])
+                return '|'.join('-' if x is None else gl(x) for x in r)
+            add(f'C04 ipg {n} {gl(q0)} {gl(q1)} {gl(c)} {int(tag[0])}{int(tag[1])}', f)
+        # default arguments: c_grad = 1, tag_grad = (True, False)
+        add(f'C04 ipg {n} {gl(q0)} {gl(q1)} 1,0 10', lambda q0=q0, q1=q1: '|'.join('-' if x is None else gl(x) for x in inner_product_grad(q0, q1)))
+
+
+def capture_function_call(wrapper, q0):
+    """one real `wrapper(q0)` with the `apply` of the autograd Function it uses intercepted: returns (apply, args) — the callable the
+    wrapper invoked and the argument tuple exactly as `CircuitTorchWrapper.forward` passed it — or None if no such call is observed.
+    Nothing is assumed about the layout of the non-tensor arguments."""
+    import torch
+    import numqi.sim._torch_utils as TU
+    fn = getattr(TU, '_CircuitFunction', None)
+    if fn is None or not hasattr(fn, 'apply'):
+        return None
+    rec = []
+    orig = fn.apply
+
+    def spy(*args, **kwargs):
+        rec.append((args, kwargs))
+        return orig(*args, **kwargs)
+    try:
+        fn.apply = staticmethod(spy)
+        wrapper(q0)
+    finally:
+        try:
+            del fn.apply            # back to the inherited classmethod
+        except Exception:
+            fn.apply = orig
+    if len(rec) != 1 or rec[0][1]:
+        return None
+    return fn.apply, rec[0][0]
+
+
+def tensor_names(wrapper):
+    """names of the stacked gate tensors in the order `forward` passes them (public attribute `ind_gate_to_ind_torch`)"""
+    return sorted({v[0] for v in wrapper.ind_gate_to_ind_torch.values()})
+
+
+def integerise_fixed_gates(circ, rng, unitary):
+    """every gate that is not differentiated gets Gaussian-integer data through its public attributes *before* the wrapper is built
+    (`gate.array`, resp. `set_args` for a frozen oracle), so the arguments the wrapper later passes on need not be touched"""
+    from numqi.sim._internal import _ParameterHolder
+    done = set()
+    for g, _ in circ.gate_index_list:
+        if id(g) in done:
+            continue
+        done.add(id(g))
+        ph = hasattr(g, 'args') and isinstance(g.args, _ParameterHolder)
+        if ph or getattr(g, 'requires_grad', False):
+            continue
+        if getattr(g, 'kind', None) == 'custom':
+            if hasattr(g, 'set_args'):
+                g.set_args(g.args, rand_scalar(rng, unitary))
+        elif hasattr(g, 'array'):
+            g.array = rand_mat(rng, np.asarray(g.array).shape[0], unitary)
+
+
 def sweep_ops(ctx, rng, add):
     import numqi, torch
-    from numqi.sim._torch_utils import _CircuitFunction
+    from numqi.sim._internal import _ParameterHolder
     nrep = 25 if ctx.quick() else 250
     for rep in range(nrep):
         n = int(rng.integers(1, 5))
@@ -248,59 +455,104 @@ def sweep_ops(ctx, rng, add):
             g0 = circ.rx(1, 0.3); circ.rx(0, circ.P['a'][0]); circ.rx(0, 0.5); circ.append_gate(g0, (0,)); circ.rx(1, circ.P['a'][1])
             circ.crx(1, 0, 0.2); circ.rz(0, circ.P['a'][2]); circ.cnot(0, 1); circ.rx(1, 0.9, requires_grad=False)
             nph = 3
+        elif rep == 1:
+            # fixed corner (repaired defect 3270353): two trainable oracles of the same name, one of them re-appended, a frozen one, -1
+            circ = numqi.sim.Circuit(default_requires_grad=True)
+            circ.register_custom_gate('fgo', numqi.query.FractionalGroverOracle); circ.register_custom_gate('go', numqi.query.GroverOracle)
+            circ.ry(3, 0.3); g1 = circ.fgo(2, 0.3); circ.cnot(0, 2); circ.rx(1, 0.7); circ.fgo(2, 1.1); circ.go(2)
+            circ.fgo(2, 0.4, requires_grad=False); circ.append_gate(g1, ()); circ.ry(0, 0.2)
+            nph = 0
+        elif rep % 3 == 2:
+            circ, nph = random_custom_circuit(rng, int(rng.integers(1, 3)), int(rng.integers(1, 8)))
         else:
             circ, nph = random_circuit(rng, n, int(rng.integers(1, 9)))
         n = circ.num_qubit
+        unitary = bool(rep % 2)
+        # (0) the rows of the tensors that `forward` stacks, and the rows of `hgate_torch_dict` after `setP`
+        stack_ops(ctx, circ, nph, add)
+        integerise_fixed_gates(circ, rng, unitary)
         wrapper = numqi.sim.CircuitTorchWrapper(circ)
         # (1) the index maps of _setup
         add(f'C04 slots {circuit_descs(circ)}',
-            lambda: '|'.join((lambda v: f'{v[0]}:{v[1]}' if v else '-')(wrapper.ind_gate_to_ind_torch.get(i)) for i in range(len(circ.gate_index_list))))
-        # (2) the sweep itself on integer tensors, with the real ind_gate_to_info.  The op line carries only what `_setup` sees
-        #     (name, object identity, requires_grad, placeholder) and the stacked tensors; which row a gate reads is derived by the
-        #     model (`slotOf`/`repSlot`/`nameList`/`rowCount`), not by this harness.
-        from numqi.sim._internal import _ParameterHolder
-        info = {k: (dict(v) if isinstance(v, dict) else list(v)) for k, v in wrapper.ind_gate_to_info.items()}
-        names = info[-1]
-        unitary = bool(rep % 2)
-        rows, dims = {}, {}
-        prog = []
-        ids = {}
-        for i, (g, _) in enumerate(circ.gate_index_list):
-            e = info[i]
+            lambda wrapper=wrapper, circ=circ: '|'.join((lambda v: f'{v[0]}:{v[1]}' if v else '-')(wrapper.ind_gate_to_ind_torch.get(i)) for i in range(len(circ.gate_index_list))))
+        # (2) the sweep itself on integer tensors.  The op line carries only public data: the gate list of the Circuit (kind, index, name,
+        #     object identity, requires_grad, placeholder, constant array) and the stacked tensors; which row a gate reads is derived by
+        #     the model (`slotOf`/`repSlot`/`nameList`/`rowCount`).  The implementation side re-issues the very call that
+        #     `CircuitTorchWrapper.forward` makes (captured during one real forward), with the integer tensors substituted at the tensor
+        #     positions and every other argument left exactly as the code passed it.
+        if nph:
+            wrapper.setP(a=torch.tensor(np.linspace(0.1, 1.7, nph), dtype=torch.float64))
+        q_probe = torch.zeros(2 ** n, dtype=torch.complex128); q_probe[0] = 1
+        try:
+            cap = capture_function_call(wrapper, q_probe)
+        except Exception as e:
+            cap = None
+            ctx.note(f'sweep tie: capturing the call of CircuitTorchWrapper.forward raised {type(e).__name__}')
+        names = tensor_names(wrapper)
+        tpos = [j for j, a in enumerate(cap[1]) if isinstance(a, torch.Tensor)] if cap else []
+        if cap is None or len(tpos) != len(names) + 1 or cap[1][tpos[-1]] is not q_probe:
+            ctx.note('sweep tie skipped: the autograd Function call of CircuitTorchWrapper.forward could not be captured in the expected form '
+                     '(tensors of the sorted names, then the state); the public-path probes decide')
+            ctx.count('sweep-capture-unavailable')
+            continue
+        apply_fn, cargs = cap
+        shapes = [tuple(cargs[j].shape) for j in tpos[:-1]]
+        dims = {nm: (0 if len(sh) == 1 else int(round(math.log2(sh[-1])))) for nm, sh in zip(names, shapes)}
+        rows = {nm: sh[0] for nm, sh in zip(names, shapes)}
+        tens = [(np.array([rand_scalar(rng, unitary) for _ in range(rows[nm])]) if dims[nm] == 0 else
+                 np.stack([rand_mat(rng, 2 ** dims[nm], unitary) for _ in range(rows[nm])])) for nm in names]
+        prog, ids, binds = [], {}, []
+        for i, (g, index) in enumerate(circ.gate_index_list):
             oid = ids.setdefault(id(g), len(ids))
             ph = int(hasattr(g, 'args') and isinstance(g.args, _ParameterHolder))
-            desc = f'{g.name}:{oid}:{int(bool(g.requires_grad))}:{ph}'
-            if e['kind'] == 'unitary':
-                t = list(e['index']); k = len(t); head = f'u:{il(t)}'
+            tr = bool(getattr(g, 'requires_grad', False))
+            desc = f'{g.name}:{oid}:{int(tr)}:{ph}'
+            live = bool(ph or tr)
+            if g.kind == 'custom':
+                head = f'x:{int(g.num_qubit)}'
+                if live:
+                    slot = wrapper.ind_gate_to_ind_torch.get(i)
+                    if slot is not None:
+                        binds.append((g, slot[0], slot[1]))
+                    prog.append(f'{head}:{desc}:-')
+                else:
+                    prog.append(f'{head}:{desc}:' + (gl(np.asarray(g.array).reshape(-1)) if hasattr(g, 'array') else '-1,0'))
+                continue
+            if g.kind == 'unitary':
+                head = f'u:{il(list(index))}'
             else:
-                c = sorted(e['index'][0]); t = list(e['index'][1]); k = len(t); head = f'c:{il(c)}:{il(t)}'
-            if 'ind_torch' in e:
-                nm = e['name']
-                rows[nm] = max(rows.get(nm, 0), e['ind_torch'] + 1); dims[nm] = k
-                prog.append(f'{head}:{desc}:-')
-            else:
-                arr = rand_mat(rng, 2 ** k, unitary)
-                e['array'] = arr
-                prog.append(f'{head}:{desc}:{gl(arr)}')
-        tens = [np.stack([rand_mat(rng, 2 ** dims[nm], unitary) for _ in range(rows[nm])]) for nm in names]
+                head = f'c:{il(sorted(index[0]))}:{il(list(index[1]))}'
+            prog.append(f'{head}:{desc}:' + ('-' if live else gl(np.asarray(g.array))))
+        # what `forward` does before the sweep: every trainable custom gate object is handed its row of the stacked tensor
+        for g, nm, row in binds:
+            if nm in names:
+                g.set_args(g.args, tens[names.index(nm)][row])
         params = [f'{nm}:{dims[nm]}:{rows[nm]}:{gl(tens[j])}' for j, nm in enumerate(names)]
         psi = rg(rng, 2 ** n, 2); gout = rg(rng, 2 ** n, 2)
 
-        def f(tens=tens, psi=psi, gout=gout, info=info, names=names, rows=rows):
-            tt = [torch.tensor(x, dtype=torch.complex128, requires_grad=True) for x in tens]
-            q0 = torch.tensor(psi, dtype=torch.complex128, requires_grad=True)
-            out = _CircuitFunction.apply(*tt, q0, info)
+        def call(tens_, psi_, grad=True, apply_fn=apply_fn, cargs=cargs, tpos=tpos):
+            tt = [torch.tensor(x, dtype=torch.complex128, requires_grad=grad) for x in tens_]
+            q0 = torch.tensor(psi_, dtype=torch.complex128, requires_grad=grad)
+            args = list(cargs)
+            for j, t in zip(tpos, tt + [q0]):
+                args[j] = t
+            return apply_fn(*args), tt, q0
+
+        def f(tens=tens, psi=psi, gout=gout, names=names, rows=rows, call=call):
+            out, tt, q0 = call(tens, psi)
             gout_t = torch.tensor(gout, dtype=torch.complex128)
-            grads = torch.autograd.grad(out, tt + [q0], grad_outputs=gout_t)
+            grads = torch.autograd.grad(out, tt + [q0], grad_outputs=gout_t, allow_unused=True)
+            grads = [torch.zeros_like(t) if g_ is None else g_ for g_, t in zip(grads, tt + [q0])]
             check_unmutated(ctx, '_CircuitFunction.backward', dict(n=int(np.log2(len(psi))), gates=[str(x) for x in names]),
                             [('grad_output', gout_t, torch.tensor(gout, dtype=torch.complex128))] + [(f'gate tensor {nm}', a, torch.tensor(b, dtype=torch.complex128)) for nm, a, b in zip(names, tt, tens)])
             gs = [gl(grads[j][r].numpy()) for j, nm in enumerate(names) for r in range(rows[nm])]
             return f'{gl(out.detach().numpy())}|{gl(grads[-1].numpy())}|{"/".join(gs)}'
         op_line = f'C04 sweep {n} {"|".join(prog)} {"|".join(params) or "-"} {gl(psi)} {gl(gout)}'
-        SWEEP_CTX[op_line] = (info, tens, psi, gout, names)
+        SWEEP_CTX[op_line] = (call, tens, psi, gout, names, prog)
         add(op_line, f)
-        nshared = sum(1 for nm in names for r in range(rows[nm])) < sum(1 for i in range(len(circ.gate_index_list)) if 'ind_torch' in info[i])
-        ctx.count('sweep-' + ('unitary' if unitary else 'general') + ('-shared' if nshared else '') + ('-placeholder' if nph else ''))
+        nshared = sum(rows.values()) < sum(1 for x in prog if x.endswith(':-'))
+        ctx.count('sweep-' + ('unitary' if unitary else 'general') + ('-shared' if nshared else '') + ('-placeholder' if nph else '')
+                  + ('-custom' if any(x.startswith('x:') for x in prog) else ''))
 
 
 def kl_ops(ctx, rng, add):
@@ -581,6 +833,7 @@ def correspondence(ctx):
         ops.append(op); impl.append(guarded(f)); posts.append(post); findings.append(finding)
     gate_ops(ctx, rng, add)
     sweep_ops(ctx, rng, add)
+    ipg_ops(ctx, rng, add)
     kl_ops(ctx, rng, add)
     flat_ops(ctx, rng, add)
     handoff_ops(ctx, rng, add)
@@ -656,6 +909,19 @@ def reimplement(circ, wrapper, q0, placeholder_params):
     n = circ.num_qubit
     psi = q0
     for i, (g, index) in enumerate(circ.gate_index_list):
+        if getattr(g, 'kind', None) == 'custom':
+            # diagonal-phase oracle: the state reshaped to a square matrix, its diagonal times the gate's scalar
+            if i in wrapper.ind_gate_to_ind_theta:
+                nm, r = wrapper.ind_gate_to_ind_theta[i]
+                a = g.hf0(*wrapper.theta[nm][r]).reshape(())
+            elif hasattr(g, 'array'):
+                a = torch.tensor(complex(np.asarray(g.array).reshape(())), dtype=torch.complex128)
+            else:
+                a = torch.tensor(-1.0 + 0j, dtype=torch.complex128)
+            d = 2 ** int(g.num_qubit)
+            m = psi.reshape(d, -1)
+            psi = (m + torch.diag(torch.diagonal(m) * (a - 1))).reshape(-1)
+            continue
         if hasattr(g, 'args') and isinstance(g.args, _ParameterHolder):
             a = g.args.resolve()
             U = g.hf0(*(a.reshape(-1) if a.ndim else a.reshape(1)))
@@ -904,6 +1170,66 @@ def probe_inputs(ctx, rng, worst):
         ctx.count(f'input-{graph}'); ctx.count(f'prefix-{prefix}')
 
 
+def build_custom_program(nq, program):
+    """a circuit from a recorded program: ["H",q] ["rx"|"ry"|"rz",q,theta] ["cnot",c,t] ["fgo",theta[,requires_grad]] ["go"] ["share",k]
+    (`share` re-appends the k-th FractionalGroverOracle object)"""
+    import numqi
+    circ = numqi.sim.Circuit(default_requires_grad=True)
+    circ.register_custom_gate('fgo', numqi.query.FractionalGroverOracle)
+    circ.register_custom_gate('go', numqi.query.GroverOracle)
+    oracles = []
+    for st in program:
+        if st[0] == 'H':
+            circ.H(st[1])
+        elif st[0] in ('rx', 'ry', 'rz'):
+            getattr(circ, st[0])(st[1], st[2])
+        elif st[0] == 'cnot':
+            circ.cnot(st[1], st[2])
+        elif st[0] == 'fgo':
+            oracles.append(circ.fgo(nq, st[1], requires_grad=(st[2] if len(st) > 2 else True)))
+        elif st[0] == 'go':
+            circ.go(nq)
+        elif st[0] == 'share':
+            circ.append_gate(oracles[st[1]], ())
+    return circ
+
+
+def custom_program_check(ctx, tag, nq, program, target):
+    """gradient of |<t|C(theta)|0>|^2 through CircuitTorchWrapper against central finite differences, per parameter"""
+    import numqi, torch
+    N = 2 ** (2 * nq)
+    rep = dict(op='CircuitTorchWrapper with custom gates', source=tag, num_qubit=2 * nq, program=program, target=target, loss='|<t|psi>|^2, psi = circuit(|0..0>)')
+    try:
+        circ = build_custom_program(nq, program)
+        w = numqi.sim.CircuitTorchWrapper(circ)
+        t = np.arange(1, N + 1) * (np.exp(1j * np.arange(N)) if target == 'ramp-phase' else 1.0)
+        tt = torch.tensor(t / np.linalg.norm(t), dtype=torch.complex128)
+        q0 = torch.zeros(N, dtype=torch.complex128); q0[0] = 1
+        loss = lambda: torch.abs(torch.vdot(tt, w(q0))) ** 2
+        for v in w.theta.values():
+            v.grad = None
+        loss().backward()
+        rows = []
+        for k in sorted(w.theta.keys()):
+            v = w.theta[k]
+            for i in range(v.numel()):
+                h = 1e-6
+                with torch.no_grad():
+                    v.view(-1)[i] += h; lp = float(loss()); v.view(-1)[i] -= 2 * h; lm = float(loss()); v.view(-1)[i] += h
+                rows.append((k, i, float(v.grad.view(-1)[i]) if v.grad is not None else 0.0, (lp - lm) / (2 * h)))
+    except Exception as ex:
+        ctx.fail(CUSTOM_KEY, f'[{tag}] CircuitTorchWrapper with a custom gate raises {type(ex).__name__}: {ex}', rep); return False
+    bad = [r for r in rows if abs(r[2] - r[3]) > 1e-6 * max(1.0, abs(r[3]))]
+    if bad:
+        k, i, g, fd = max(bad, key=lambda r: abs(r[2] - r[3]))
+        ctx.fail(CUSTOM_KEY, f'[{tag}] parameter {k}[{i}] of a circuit with kind=custom gates receives .grad {g:.6g} while central finite differences give {fd:.6g} '
+                 f'({len(bad)} of {len(rows)} parameters wrong; custom-gate parameters: {[r[:2] for r in bad if "oracle" in r[0]]})',
+                 dict(rep, gradients=[dict(parameter=f'{k}[{i}]', grad=g, finite_difference=fd) for k, i, g, fd in rows]))
+        return False
+    ctx.probe_ok(('custom-program', tag, nq, len(program)))
+    return True
+
+
 def corpus_replay(ctx):
     """/verif/corpus/C04/*.json: the recorded failing input of every repaired defect, replayed first on every run (both tiers)"""
     import glob, json, os, numqi
@@ -911,7 +1237,10 @@ def corpus_replay(ctx):
     cv = lambda x: complex(x) if isinstance(x, str) else x
     for path in sorted(glob.glob(os.path.join(common.VERIF, 'corpus', 'C04', '*.json'))):
         tag = os.path.basename(path)[:-5]
-        for e in json.load(open(path))['entries']:
+        for j, e in enumerate(json.load(open(path))['entries']):
+            if e.get('kind') == 'custom_circuit':
+                custom_program_check(ctx, f'corpus {tag}#{j}', e['nq'], e['program'], e['target'])
+                continue
             if e.get('kind') != 'apply_gate_grad':
                 continue
             idx = e['index']
@@ -929,6 +1258,163 @@ def corpus_replay(ctx):
                 ctx.fail(INT_INDEX_KEY, f'[corpus {tag}] apply_gate_grad with the bare index {idx!r} differs from the tuple form', rep)
             else:
                 ctx.probe_ok(('corpus', tag, repr(idx)))
+
+
+def circuit_grad_triple(circ, nph, r2, snaps=None):
+    """(theta, gradient through CircuitTorchWrapper, gradient of the pure-autograd re-implementation, central finite differences) for a
+    generic real loss (quadratic + linear part) and a random normalised input state given as a torch tensor"""
+    import numqi, torch
+    n = circ.num_qubit
+    wrapper = numqi.sim.CircuitTorchWrapper(circ)
+    a = r2.normal(size=2 ** n) + 1j * r2.normal(size=2 ** n)
+    b = r2.normal(size=2 ** n) + 1j * r2.normal(size=2 ** n)
+    q0np = r2.normal(size=2 ** n) + 1j * r2.normal(size=2 ** n); q0np /= np.linalg.norm(q0np)
+    at, bt = torch.tensor(a), torch.tensor(b)
+    ph = torch.nn.Parameter(torch.tensor(r2.uniform(0, 2 * np.pi, size=max(nph, 1)), dtype=torch.float64))
+    names = ['placeholder'] + sorted(wrapper.theta.keys())
+    plist = [ph] + [wrapper.theta[k] for k in names[1:]]
+    sizes = [p.numel() for p in plist]
+    labels = [f'{nm}[{i}]' for nm, sz in zip(names, sizes) for i in range(sz)]
+
+    def loss_of(psi):
+        v = torch.vdot(at, psi)
+        return (v * v.conj()).real + torch.vdot(bt, psi).real + 0.3 * torch.vdot(bt, psi).imag
+
+    def set_flat(x):
+        off = 0
+        with torch.no_grad():
+            for p, sz in zip(plist, sizes):
+                p.copy_(torch.tensor(x[off:off + sz]).reshape(p.shape)); off += sz
+
+    def run(kind):
+        if nph:
+            wrapper.setP(a=ph)
+        q0 = torch.tensor(q0np)
+        return loss_of(wrapper(q0) if kind == 'custom' else reimplement(circ, wrapper, q0, ph))
+    x0 = np.concatenate([p.detach().numpy().reshape(-1) for p in plist])
+    grads = {}
+    for kind in ('custom', 'autograd'):
+        for p in plist:
+            p.grad = None
+        run(kind).backward()
+        grads[kind] = np.concatenate([(p.grad if p.grad is not None else torch.zeros_like(p)).numpy().reshape(-1) for p in plist])
+    fd = fd_grad(lambda x: (set_flat(x), float(run('custom').detach()))[1], x0)
+    set_flat(x0)
+    return x0, grads['custom'], grads['autograd'], fd, labels
+
+
+def grover_query_circuit(num_qubit, num_layer, num_query, use_fractional):
+    """the circuit of tests/test_query.py::_QueryGroverQuantumModel_build_circuit"""
+    import numqi
+    circ = numqi.sim.Circuit(default_requires_grad=True)
+    circ.register_custom_gate('oracle', numqi.query.FractionalGroverOracle if use_fractional else numqi.query.GroverOracle)
+
+    def block():
+        for _ in range(num_layer):
+            for q in list(range(0, num_qubit - 1, 2)) + list(range(1, num_qubit - 1, 2)):
+                circ.ry(q); circ.rx(q); circ.ry(q + 1); circ.rx(q + 1); circ.cnot(q, q + 1)
+    for _ in range(num_query):
+        block()
+        circ.oracle(num_qubit)
+    block()
+    return circ
+
+
+def probe_custom(ctx, rng, worst):
+    """`circuit-grad-vs-fd:custom` — circuits that contain `kind='custom'` gates (registered through `register_custom_gate`):
+    (a) random circuits with trainable / frozen / shared FractionalGroverOracle and GroverOracle objects: gradient through
+        CircuitTorchWrapper against central finite differences and a pure-autograd re-implementation, per parameter;
+    (b) numqi.query.QueryGroverQuantumModel (use_fractional on/off) through numqi.optimize.hf_model_wrapper(model)(theta) -> (fval, grad)"""
+    import numqi, torch
+    worst.setdefault('custom_fd', 0.0); worst.setdefault('custom_autograd', 0.0); worst.setdefault('query_model_fd', 0.0)
+    for rep in range(8 if ctx.quick() else 48):
+        seed = int(rng.integers(1 << 30))
+        r2 = np.random.default_rng(seed)
+        nq = 1 + rep % 2
+        circ, nph = random_custom_circuit(r2, nq, int(r2.integers(2, 9)))
+        info = dict(op='CircuitTorchWrapper with custom gates', circuit_seed=seed, nq=nq, num_qubit=2 * nq,
+                    gates=[(g.name, g.kind, str(ix), bool(getattr(g, 'requires_grad', False)), id(g) % 9973) for g, ix in circ.gate_index_list])
+        try:
+            x0, gc, ga, fd, labels = circuit_grad_triple(circ, nph, r2)
+            e_fd, e_ag = rel_err(gc, fd), rel_err(gc, ga)
+            worst['custom_fd'] = max(worst['custom_fd'], e_fd); worst['custom_autograd'] = max(worst['custom_autograd'], e_ag)
+        except Exception as e:
+            ctx.fail('custom-grad-raises', f'{type(e).__name__}: {e}', info); continue
+        if e_ag > 1e-9 or e_fd > 1e-5:
+            j = int(np.argmax(np.abs(gc - ga)))
+            ctx.fail(CUSTOM_KEY, f'circuit with kind=custom gates: parameter {labels[j]} receives .grad {gc[j]:.6g}, the pure-autograd re-implementation gives {ga[j]:.6g}, '
+                     f'central finite differences {fd[j]:.6g} (relative error {max(e_ag, e_fd):.3e})',
+                     dict(info, parameters=labels, theta=x0.tolist(), grad=gc.tolist(), autograd=ga.tolist(), finite_difference=fd.tolist()))
+        else:
+            ctx.probe_ok(('custom-circuit', seed)); ctx.count('circuit-grad-vs-fd:custom')
+    cases = [(2, 1, 1, True), (2, 1, 2, True), (2, 2, 1, False)] if ctx.quick() else [(2, 1, 1, True), (2, 1, 2, True), (2, 2, 2, True), (3, 1, 1, True), (3, 1, 2, True), (2, 2, 1, False), (3, 1, 1, False)]
+    for num_qubit, num_layer, num_query, frac in cases:
+        seed = int(rng.integers(1 << 30))
+        info = dict(op='numqi.optimize.hf_model_wrapper(QueryGroverQuantumModel(circuit))(theta)', num_qubit=num_qubit, num_layer=num_layer, num_query=num_query, use_fractional=frac, theta_seed=seed)
+        try:
+            model = numqi.query.QueryGroverQuantumModel(grover_query_circuit(num_qubit, num_layer, num_query, frac))
+            hf = numqi.optimize.hf_model_wrapper(model)
+            names = [k for k, _ in sorted(model.named_parameters(), key=lambda kv: kv[0])]
+            sizes = [dict(model.named_parameters())[k].numel() for k in names]
+            labels = [f'{nm}[{i}]' for nm, sz in zip(names, sizes) for i in range(sz)]
+            theta = np.random.default_rng(seed).uniform(0, 2 * np.pi, size=sum(sizes))
+            f0, g0 = hf(theta.copy())
+            fd = fd_grad(lambda x: hf(x, tag_grad=False), theta)
+            f1, g1 = hf(theta.copy())
+            e = rel_err(g0, fd)
+            worst['query_model_fd'] = max(worst['query_model_fd'], e)
+        except Exception as ex:
+            ctx.fail('custom-grad-raises', f'{type(ex).__name__}: {ex}', info); continue
+        if e > 1e-5 or not np.array_equal(g0, g1) or f0 != f1:
+            j = int(np.argmax(np.abs(g0 - fd)))
+            ctx.fail(CUSTOM_KEY, f'QueryGroverQuantumModel through hf_model_wrapper: d loss / d {labels[j]} = {g0[j]:.6g} but central finite differences give {fd[j]:.6g} '
+                     f'(relative error {e:.3e}; repeated call identical: {bool(np.array_equal(g0, g1) and f0 == f1)})',
+                     dict(info, parameters=labels, theta=theta.tolist(), grad=np.asarray(g0).tolist(), finite_difference=fd.tolist()))
+        else:
+            ctx.probe_ok(('query-model', num_qubit, num_layer, num_query, frac)); ctx.count('query-model-grad-vs-fd')
+
+
+def probe_relative_entropy(ctx, rng, worst):
+    """`numqi.utils.get_relative_entropy` with its default `_torch_logm=('pade',6,8)`: for a differentiable argument the loss is built on
+    `PSDMatrixLogm` (repeated PSD square root + Pade); gradient against the eigen-decomposition path (autograd) and finite differences"""
+    import numqi, torch
+    worst.setdefault('relative_entropy_pade', 0.0)
+    for rep in range(6 if ctx.quick() else 40):
+        d = int(rng.integers(2, 5)); seed = int(rng.integers(1 << 30))
+        r2 = np.random.default_rng(seed)
+        info = dict(op='get_relative_entropy(rho, sigma(theta))  [default _torch_logm]', dim=d, seed=seed)
+        try:
+            A0 = r2.normal(size=(d, d)) + 1j * r2.normal(size=(d, d))
+            rho = numqi.random.rand_density_matrix(d, seed=int(r2.integers(1 << 30)))
+            rho_t = torch.tensor(rho, dtype=torch.complex128)
+
+            def sigma_of(x):
+                A = torch.complex(x[:d * d], x[d * d:]).reshape(d, d)
+                S = A @ A.conj().T + 0.2 * torch.eye(d, dtype=torch.complex128)
+                return S / torch.trace(S).real
+
+            x0 = np.concatenate([A0.real.reshape(-1), A0.imag.reshape(-1)])
+            grads = {}
+            vals = {}
+            for mode in ('default', 'eigen'):
+                x = torch.tensor(x0, dtype=torch.float64, requires_grad=True)
+                sig = sigma_of(x)
+                keep = sig.detach().clone()
+                val = numqi.utils.get_relative_entropy(rho_t, sig) if mode == 'default' else numqi.utils.get_relative_entropy(rho_t, sig, _torch_logm='eigen')
+                val.backward()
+                grads[mode] = x.grad.numpy().copy(); vals[mode] = float(val.detach())
+                if not torch.equal(sig.detach(), keep):
+                    ctx.fail(MUTATION_KEY + ':get_relative_entropy', 'get_relative_entropy modified its sigma argument in place', info)
+            fd = fd_grad(lambda x: float(numqi.utils.get_relative_entropy(rho, sigma_of(torch.tensor(x, dtype=torch.float64)).numpy())), x0)
+            e_ag, e_fd = rel_err(grads['default'], grads['eigen']), rel_err(grads['default'], fd)
+            worst['relative_entropy_pade'] = max(worst['relative_entropy_pade'], e_ag, e_fd, abs(vals['default'] - vals['eigen']))
+        except Exception as ex:
+            ctx.fail('relative-entropy-grad-raises', f'{type(ex).__name__}: {ex}', info); continue
+        if e_ag > 1e-6 or e_fd > 1e-5 or abs(vals['default'] - vals['eigen']) > 1e-7 * max(1.0, abs(vals['eigen'])):
+            ctx.fail('relative-entropy-grad', f'get_relative_entropy (default Pade logm path): gradient differs from the eigen path by {e_ag:.3e} and from finite differences by {e_fd:.3e}; '
+                     f'value {vals["default"]!r} vs {vals["eigen"]!r}', dict(info, theta=x0.tolist(), grad=grads['default'].tolist(), eigen=grads['eigen'].tolist(), finite_difference=fd.tolist()))
+        else:
+            ctx.probe_ok(('relative-entropy', d, seed)); ctx.count('relative-entropy-pade')
 
 
 def probe_histories(ctx, rng, worst):
@@ -1132,6 +1618,8 @@ def probe(ctx):
     probe_inputs(ctx, rng, worst)
     probe_histories(ctx, rng, worst)
     probe_aliasing_ops(ctx, rng)
+    probe_custom(ctx, np.random.default_rng(ctx.np_seed + 11), worst)
+    probe_relative_entropy(ctx, np.random.default_rng(ctx.np_seed + 12), worst)
     # (2) Knill-Laflamme op and the VarQEC loss through the flat-parameter bridge
     for rep in range(2 if ctx.quick() else 8):
         seed = int(rng.integers(1 << 30))
@@ -1321,34 +1809,55 @@ def search(ctx, hints):
     st = numqi.sim.state
     rng = np.random.default_rng(0)
     import torch
-    from numqi.sim._torch_utils import _CircuitFunction
+    if any(d['op'].startswith('C04 sweep') and ':x:' in ('|' + d['op'].split(' ')[3]).replace('|x:', '|:x:') for d in hints):
+        # a sweep that contains custom gates disagrees with the model: differentiate real circuits with custom gates (recorded programs of
+        # the repaired defect 3270353 and fresh random ones) against finite differences
+        import glob, json, os
+        for path in sorted(glob.glob(os.path.join(common.VERIF, 'corpus', 'C04', '*.json'))):
+            for j, e in enumerate(json.load(open(path))['entries']):
+                if e.get('kind') == 'custom_circuit':
+                    custom_program_check(ctx, f'search {os.path.basename(path)[:-5]}#{j}', e['nq'], e['program'], e['target'])
+        probe_custom(ctx, np.random.default_rng(ctx.np_seed + 21), {})
     for d in hints[:40]:
         # the q0_grad half of the sweep: F is linear in the input state, so <q0_grad, dpsi> = <g_out, F(dpsi)> for every dpsi;
         # evaluated on the real _CircuitFunction with the integer gate data of the disagreeing op (exact arithmetic)
         if d['op'] in SWEEP_CTX:
-            info, tens, psi, gout, names = SWEEP_CTX[d['op']]
+            call, tens, psi, gout, names, prog = SWEEP_CTX[d['op']]
             try:
                 for trial in range(3):
                     dpsi = rg(rng, psi.shape, 2)
-                    tt = [torch.tensor(x, dtype=torch.complex128, requires_grad=True) for x in tens]
-                    q0 = torch.tensor(psi, dtype=torch.complex128, requires_grad=True)
-                    out = _CircuitFunction.apply(*tt, q0, info)
+                    out, tt, q0 = call(tens, psi)
                     grads = torch.autograd.grad(out, [q0], grad_outputs=torch.tensor(gout, dtype=torch.complex128))
                     q0_grad = grads[0].numpy()
                     with torch.no_grad():
-                        Fd = _CircuitFunction.apply(*[torch.tensor(x, dtype=torch.complex128) for x in tens], torch.tensor(dpsi, dtype=torch.complex128), info).numpy()
+                        Fd = call(tens, dpsi, grad=False)[0].numpy()
                     lhs = np.vdot(q0_grad, dpsi); rhs = np.vdot(gout, Fd)
                     if lhs != rhs:
-                        gates = [(info[i]['kind'], info[i]['name'], str(info[i]['index']), 'trainable' if 'ind_torch' in info[i] else 'fixed') for i in range(len(info) - 1)]
+                        gates = [(e.split(':')[0], e.split(':')[-5], e.split(':')[1], 'fixed' if not e.endswith(':-') else 'trainable') for e in prog]
                         ctx.fail('sweep-input-state-gradient', f'_CircuitFunction.backward: gradient of the input state is not the adjoint of the circuit: '
                                  f'<q0_grad,dpsi>={lhs} but <g_out,F(dpsi)>={rhs} (first trainable gate is #{next((i for i, g in enumerate(gates) if g[3] == "trainable"), None)} of {len(gates)})',
                                  dict(op='_CircuitFunction', gates=gates, psi=gl(psi), g_out=gl(gout), dpsi=gl(dpsi), q0_grad=gl(q0_grad),
-                                      tensors={nm: gl(x) for nm, x in zip(names, tens)}, fixed_arrays={str(i): gl(info[i]['array']) for i in range(len(info) - 1) if 'array' in info[i]}))
+                                      tensors={nm: gl(x) for nm, x in zip(names, tens)}, program=prog))
                         break
             except Exception:
                 pass
             continue
         t = d['op'].split(' ')
+        if t[1] == 'ipg':
+            # the adjoint identity of theorem innerProductGrad_vjp on the real function, integer data (exact)
+            try:
+                pv = lambda z: np.array([complex(*map(int, e.split(','))) for e in z.split(';')])
+                q0, q1, c = pv(t[3]), pv(t[4]), pv(t[5])[0]
+                dq0, dq1 = rg(rng, q0.shape, 2), rg(rng, q1.shape, 2)
+                g0, g1 = st.inner_product_grad(q0, q1, c, tag_grad=(True, True))
+                lhs = (np.conj(c) * (np.vdot(dq0, q1) + np.vdot(q0, dq1))).real
+                rhs = (np.vdot(g0, dq0) + np.vdot(g1, dq1)).real
+                if lhs != rhs:
+                    ctx.fail('inner-product-grad-adjoint', f'inner_product_grad is not the adjoint of c = vdot(q0, q1): Re<c_grad, dc> = {lhs} but Re<q0_grad,dq0> + Re<q1_grad,dq1> = {rhs}',
+                             dict(op='inner_product_grad', q0=gl(q0), q1=gl(q1), c_grad=gl(c), dq0=gl(dq0), dq1=gl(dq1), q0_grad=gl(g0), q1_grad=gl(g1)))
+            except Exception:
+                pass
+            continue
         try:
             if t[1] == 'gg':
                 n = int(t[2]); idx = tuple(int(x) for x in t[3].split(';')); ctrl = None
